@@ -373,9 +373,19 @@ func checkC06(c C06Case, o *vcore.Obs) error {
 				return fmt.Errorf("harness: %v", err)
 			}
 		}
+		if (r+n)%3 == 1 {
+			// the first attempt(s) of this upload fail (the retry budget is 3): name and meta data still carry the time of the image
+			fs := []string{fault.Fail}
+			if n%2 == 1 {
+				fs = append(fs, fault.Fail)
+			}
+			hdl.SetPlan("store", fs)
+			o.Class("upload-that-succeeds-at-a-retry")
+		}
 		if err := send(); err != nil {
 			return fmt.Errorf("upload %d (after %d further application commits): %w", r+3, n, err)
 		}
+		hdl.ClearPlans()
 		o.ClassIf(n == 0, "upload-of-an-unchanged-lmdb")
 		o.ClassIf(n == 1, "upload-after-exactly-one-commit")
 	}
